@@ -104,7 +104,7 @@ def atom_expr(a: Dict[str, Any], subject: str) -> str:
     if g == "notnot":
         return "not (%s is not None) or %s" % (subject, cmp)
     if g == "isnone3":
-        return "%s is None or len(%s) == 99 or %s" % (subject, subject, cmp)
+        return "%s is None or self.y is None or %s" % (subject, cmp)
     if g == "other":
         return "self.y is None or %s" % cmp
     if g == "othernot":
@@ -117,7 +117,7 @@ def all_atoms(scn: Dict[str, Any]) -> List[Dict[str, Any]]:
 
 
 def needs_y(scn: Dict[str, Any]) -> bool:
-    return any(a["g"] in ("other", "othernot") for a in all_atoms(scn))
+    return any(a["g"] in ("other", "othernot", "isnone3") for a in all_atoms(scn))
 
 
 def needs_n(scn: Dict[str, Any]) -> bool:
